@@ -242,7 +242,14 @@ pub fn run_case(case: &Case) -> Outcome {
         "arith" => match case.h("f") {
             0 => check_capacity_to_buckets(case.h("cap") as usize, case.h("size") as usize, (case.h("align") as usize).max(WIDTH)),
             1 => check_bucket_mask_to_capacity(case.h("k") as u32),
-            2 => check_layout(case.h("size") as usize, case.h("align") as usize, case.h("k") as u32),
+            2 => {
+                if case.h("k") >= 64 {
+                    // crash dump of the enumerating runner: all bucket counts for this (size, align)
+                    (0..64u32).try_for_each(|k| check_layout(case.h("size") as usize, case.h("align") as usize, k))
+                } else {
+                    check_layout(case.h("size") as usize, case.h("align") as usize, case.h("k") as u32)
+                }
+            }
             3 => check_probe(case.h("k") as u32, case.h("hash")).map(|_| ()),
             _ => check_typed_layouts().map(|_| ()),
         },
